@@ -169,7 +169,7 @@ def main():
                 if b in kf:
                     good += 1
                     continue
-                if o['status'] != 'unsat' or o['s'] > SLOW:
+                if o['status'] != 'unsat' or o['s'] > SLOWP.get(pid, SLOW):
                     k = o['func'] + '/' + o['kind'] + '|' + o['desc']
                     if pid in FINE and o['_n'] > 1:
                         k += '||%d/%d' % (o['_i'], o['_n'])      # this occurrence only (same clause text at several places)
@@ -198,6 +198,9 @@ def main():
     print('\n'.join(report))
 
 
+# properties whose discriminating obligations are proved but slow (20-30 s of solver time in total, every single query within the 8 s
+# status budget): claimed there as well; the quick check's second-chance pass (30 s per query) backs them up
+SLOWP = {'C13': 30.0, 'C15': 30.0, 'C16': 30.0, 'C17': 30.0}
 FINE = set(x for x in os.environ.get('PROPS_FINE', 'C13,C15,C16,C17').split(',') if x)
 
 
